@@ -402,6 +402,7 @@ def expand_quantifiers(paths: list, ev=None) -> list:
     for p in paths:
         conds: list = []
         changed = False
+        repl: dict = {}
         for c in p.conds:
             if c[0] == "forall-not":
                 # ¬∃p (A ∧ ∃x C(x))  =  ¬∃p ∃x (A ∧ C(x)): an any(...) inside the body of a search loop is one more (nested) search
@@ -419,6 +420,19 @@ def expand_quantifiers(paths: list, ev=None) -> list:
                     conds.append(("forall-not", c[1], c[2], tuple(body)))
                     changed = True
                     continue
+            nx = _next_search(c)
+            if nx is not None:
+                # `next((x for x in S if c(x)), None)` is the search loop `for x in S: if c(x): <found x>`: "is None" = no element qualifies
+                seq, exists, nterms, found = nx
+                conds.append(c)
+                if exists:
+                    conds.extend(seq)
+                    for nterm in nterms:
+                        repl[nterm] = found
+                else:
+                    conds.append(("forall-not", seq[0][1], seq[0][2], tuple(seq[1:])))
+                changed = True
+                continue
             r = _quantifier_conds(c, ev)
             if r is None:
                 conds.append(c)
@@ -427,8 +441,51 @@ def expand_quantifiers(paths: list, ev=None) -> list:
                 conds.append(c)
                 conds.extend(r)
                 changed = True
+        if repl:
+            def fn(s_, _r=repl):
+                return _r.get(s_)
+            p = replace(p, value=mapterm(p.value, fn) if p.kind == "return" and is_term(p.value) else p.value)
+            conds = [c if _next_search(c) is not None else mapterm(c, fn) for c in conds]
         out.append(replace(p, conds=tuple(conds)) if changed else p)
     return out
+
+
+def _next_search(c: Term):
+    neg = False
+    while c[0] == "not":
+        neg = not neg
+        c = c[1]
+    if c[0] in ("truth", "nonempty") and is_term(c[1]) and c[1][0] == "accum" and c[1][1] == "concat" and c[1][2] == ("listlit", ()) and len(c[1]) > 5 \
+            and c[1][3][0] == "listlit" and len(c[1][3][1]) == 1 and c[1][4]:
+        # a list that receives the hit(s) of a search loop (`hits.append(x); break`), tested for emptiness and read at [0]
+        gens_ = tuple((p_, (it_[1] if it_[0] == "firsthit" else it_), cs_) for p_, it_, cs_ in c[1][4])
+        orig = c[1]
+        c = (c[0], ("comp", "list", c[1][3][1][0], gens_))
+        extra_nterms = [("index", orig, ("const", 0))]
+    else:
+        extra_nterms = []
+    if c[0] in ("truth", "nonempty") and is_term(c[1]) and c[1][0] == "comp" and c[1][1] == "list" and c[1][3] \
+            and not (isinstance(c[1][2], tuple) and c[1][2] and c[1][2][0] == "%payload"):
+        # `hits = [x for x in S if c(x)]`, tested for emptiness and then read at [0]: the same search, its first hit
+        g = c[1]
+        neg = not neg  # `nonempty` is the positive reading: flip so that `neg` means "a hit exists" as for `is None` below
+        nterms = [("index", g, ("const", 0)), ("call", "next", (("call", "iter", (g,), ()),), ())] + extra_nterms
+    elif c[0] != "isnone" or not is_term(c[1]) or c[1][0] != "call" or c[1][1] != "next" or len(c[1][2]) != 2 or c[1][2][1] != ("const", None) or c[1][3]:
+        return None
+    else:
+        g = c[1][2][0]
+        nterms = [c[1]]
+        while g[0] == "call" and g[1] == "iter" and len(g[2]) == 1:
+            g = g[2][0]
+        if g[0] != "comp" or g[1] not in ("gen", "list") or not g[3] or (isinstance(g[2], tuple) and g[2] and g[2][0] == "%payload"):
+            return None
+    seq: list = []
+    for pat, it, cs in g[3]:
+        seq.append(("iter-elem", pat, it))
+        seq.extend(cs)
+    fresh = {v: ("var", str(v[1]) + "'") for gg in g[3] for v in _pat_vars(gg[0])}
+    seq = [subst(x, fresh) for x in seq]
+    return seq, neg, nterms, subst(g[2], fresh)
 
 
 STRUCTURAL_HEADS = {"comp", "accum", "ite", "cases", "tuplelit", "listlit", "setlit", "dictlit", "bigunion", "concat", "mut", "after-iteration",
@@ -787,7 +844,9 @@ def compare_with_reference(model: Model, impl_q: str, ref_q: str, types: dict[st
                     verdict = "UNKNOWN"
                     d = "the routine is written in an idiom the normaliser cannot relate to the definition's: " + d
             cond = show_formula(joint_guard(a, b, sa))
-            res = (f, verdict, f"{d}  [on inputs with: {cond[:300]}] (line {a.path.line})", sample)
+            if _os.environ.get("YV_DEBUG_CMP") and _os.environ["YV_DEBUG_CMP"] in impl_q:
+                print(f"== MISMATCH impl path {oi.index(a)} vs ref path {orf.index(b)}: {verdict}: {d[:300]}")
+            res = (f, verdict, f"{d}  [on inputs with: {cond[:int(__import__("os").environ.get("YV_GUARD_CHARS", "300"))]}] (line {a.path.line})", sample)
             if verdict == "REFUTED":
                 return res
             if pending is None:
